@@ -165,6 +165,8 @@ func (o Op) evalRaw() string {
 		return obsFp(o.S, o.A)
 	case "is":
 		return obsIs(o.S)
+	case "c03l":
+		return obsC03List(o.S)
 	case "strcore":
 		return obsStrCore(o.S, o.A, byte(o.B))
 	case "h5":
@@ -257,4 +259,27 @@ func (e *evaluator) Eval(o Op, line string) string {
 	r := o.evalRaw()
 	atomic.StoreInt64(&e.start, 0)
 	return r
+}
+
+// c03ListMagic marks the pseudo-inputs of stream g3 that ask both sides for the grammar lists of C03.
+const c03ListMagic = "\x00\x00c03-grammar-list:"
+
+// obsC03List prints one of the grammar lists of C03 (skeletons with their words joined by one space).
+func obsC03List(kind string) string {
+	var l []string
+	switch kind {
+	case "sk":
+		l = c03Skeletons
+	case "pr":
+		l = c03Prefixes
+	case "tl":
+		l = c03Tails
+	case "sp":
+		l = c03Seps
+	}
+	parts := make([]string, len(l))
+	for i, x := range l {
+		parts[i] = hx(x)
+	}
+	return strings.Join(parts, ";")
 }
